@@ -39,6 +39,9 @@ EMBEDDED = {
         "def fan(pool, xs):\n    return [f.result() for f in futures.as_completed([pool.submit(abs, x) for x in xs])]\n"
         "CACHE = {}\n"
         "def do_state(k):\n    CACHE[k] = 1\n    return k\n"
+        "_RNG = np.random.RandomState(7)\n"
+        "def shared_draw(n):\n    return _RNG.permutation(n)\n"
+        "def local_draw(n):\n    rng = np.random.RandomState(7)\n    return rng.permutation(n)\n"
     )
 }
 
@@ -165,6 +168,13 @@ def d2_rng(chk, prog, eff):
     chk.rule("seed-before-draw", "np.random.<draw>/random.<draw> must be dominated in its function by np.random.seed(<int constant>) "
              "(or, for a private helper, at every caller); DataFrame.sample / scipy.cluster.vq.kmeans* / sklearn estimators "
              "must receive a constant random_state/seed or be dominated by such a seed call (through callees they call)")
+    # generator objects that persist between calls: their draws depend on the process's history
+    shared = rules.shared_generators(prog)
+    for sfi, sn, desc in shared:
+        chk.violate("seed-before-draw", f"{sfi.qn}::{norm(sn)[:70]}", sfi.loc(sn), f"`{norm(sn)[:60]}` draws from a generator that outlives the call ({desc}): the state advances with every call, "
+                    "so the result depends on how often the function ran before in this process -- seed a generator inside the call instead")
+    if not shared:
+        chk.ok("seed-before-draw", "no draw from a module-level / default-argument / class-attribute generator object")
     sites = rules.rng_sites(prog)
     chk.floor("C10-D2 RNG sites", len(sites), 6)
     for fi, n, kind, name in sites:
@@ -439,6 +449,9 @@ def embedded_positive(chk):
     ok = ok and len(banned) == 1
     if not ok:
         raise AnalysisError("embedded positive example not recognised by the effect / RNG / fan-out rules")
+    sg = rules.shared_generators(p)
+    if [f.name for f, _, _ in sg] != ["shared_draw"]:
+        raise AnalysisError(f"embedded positive example: shared-generator rule found {[f.name for f, _, _ in sg]}, expected ['shared_draw']")
     chk.ok("self-check", "embedded positive examples: alias mutation, unseeded draw, as_completed all fire", cells=4)
 
 
